@@ -283,3 +283,55 @@ pub fn c07_heartbeat_commit_rule() {
     }
     std::mem::forget(f);
 }
+
+/// C25 thorough tier: prefixes and keys of up to 4 bytes.
+#[kani::proof]
+#[kani::unwind(2)]
+pub fn c25_prefix_scan_bound_4bytes() {
+    const N: usize = 4;
+    let pl: usize = kani::any();
+    let kl: usize = kani::any();
+    kani::assume(pl >= 1 && pl <= N && kl <= N);
+    let pb: [u8; N] = kani::any();
+    let kb: [u8; N] = kani::any();
+    let p = &pb[..pl];
+    let k = &kb[..kl];
+    let succ = crate::gen_slices::prefix_successor(p);
+    let mut all_ff = true;
+    let mut has_prefix = kl >= pl;
+    let mut i = 0;
+    while i < N {
+        if i < pl && pb[i] != 0xFF {
+            all_ff = false;
+        }
+        if i < pl && i < kl && kb[i] != pb[i] {
+            has_prefix = false;
+        }
+        i += 1;
+    }
+    fn lt(a: &[u8], b: &[u8]) -> bool {
+        let mut i = 0;
+        while i < N {
+            if i >= a.len() || i >= b.len() {
+                break;
+            }
+            if a[i] != b[i] {
+                return a[i] < b[i];
+            }
+            i += 1;
+        }
+        a.len() < b.len()
+    }
+    kani::cover!(succ.is_none() && pl == 4, "four 0xFF bytes");
+    kani::cover!(succ.is_some() && pl == 4 && pb[3] == 0xFF && pb[2] == 0xFF, "carry past two trailing 0xFF");
+    match &succ {
+        None => assert!(all_ff, "C25:no_upper_bound_for_a_prefix_that_has_a_successor"),
+        Some(u) => {
+            assert!(!all_ff, "C25:upper_bound_for_all_0xFF_prefix");
+            assert!(u.len() >= 1 && u.len() <= pl, "C25:upper_bound_longer_than_prefix");
+            let in_range = !lt(k, p) && lt(k, &u[..]);
+            assert!(in_range == has_prefix, "C25:scan_range_differs_from_the_set_of_keys_with_the_prefix");
+        }
+    }
+    std::mem::forget(succ);
+}
